@@ -50,6 +50,7 @@ def _c04(v, b, tier):
     hooks_checks.check_hooks(v, b.t1_summary)
     conv_checks.check_conv(v, "C04", b.t1_summary, 30 * SIZES[tier])
     cycle_checks.cycle_battery(v, "C04", 150 * SIZES[tier])
+    cycle_checks.generic_battery(v, "C04", 60 * SIZES[tier])
 
 
 def _c09(v, b, tier):
@@ -82,6 +83,7 @@ def _c14(v, b, tier):
 
 def _c17(v, b, tier):
     gen_checks.check_c17(v, 45 * SIZES[tier])
+    cycle_checks.generic_battery(v, "C17", 60 * SIZES[tier])
 
 
 def _c10(v, b, tier):
@@ -103,7 +105,10 @@ RULE_CONV = ("worlds = 2 enums + 1-4 generated classes (attrs, frozen attrs, dat
              "families of 1-3 mutually recursive classes of mixed kinds (attrs, dataclass, NamedTuple, TypedDict) defined as source text in a fresh module, "
              "cycle closed through Optional / List / Dict / Tuple[.., ...] / a direct reference, 0-2 plain attributes (int, str, float, bool, Enum, List[int], "
              "Optional[str], Dict[str, Enum]), optional second edge, optional attrs field converters on the reference-carrying attributes; per family the classes are "
-             "used in a random order on converters that live as long as the family; per class 2 values x (unstructure, structure back in both modes, 3 corrupted payloads)")
+             "used in a random order on converters that live as long as the family; per class 2 values x (unstructure, structure back in both modes, 3 corrupted payloads "
+             "+ every single-key deletion) ; PLUS the GENERIC battery (oracle only, Converter): a generic attrs class or dataclass Box[T] with 1-4 TypeVar-typed attributes "
+             "(T, List[T], Dict[str, T], Optional[T], Tuple[T, ...]; attrs field converters on 45% of them), used as Box[A] for two A of {int, str, Enum, attrs class, dataclass}, "
+             "as a non-parametrised subclass of Box[A] and as its child; values / expected encodings / conformance from the SUBSTITUTED annotations")
 
 
 def _conv(prop, base):
@@ -111,6 +116,10 @@ def _conv(prop, base):
         hooks_checks.check_hooks(v, b.t1_summary)
         conv_checks.check_conv(v, prop, b.t1_summary, base * SIZES[tier])
         cycle_checks.cycle_battery(v, prop, 150 * SIZES[tier])
+        if prop != "C06":
+            cycle_checks.generic_battery(v, prop, 60 * SIZES[tier])      # generic classes: documented for Converter only
+        if prop == "C02":
+            pass_checks.check_c02_passthrough(v, 60 * SIZES[tier])
     return run
 
 
